@@ -7,11 +7,14 @@
  * h_gens_parse_b4   (-DGENS_LOG) bounded stand-in n <= 4, loop unwound: accept <=> every element
  *                   accepted, each element decoded exactly once from data[33 j] into gens[j].
  * h_gens_serialize  every n <= NMAX and every *data_len; buffer of exactly *data_len bytes.
- * secp256k1_generator_parse is replaced by its contract (proved by C07.generator_parse). */
-#define BP_IS_SQUARE
+ * secp256k1_generator_parse is replaced by its contract (proved by C07.generator_parse); generator_load /
+ * _save / _serialize by their frame contracts (proved by C19.generator_load / _save / _serialize). */
 #define BP_MEMSET
+#define BP_GENERATOR_SAVE
+#define BP_GENERATOR_SERIALIZE
 #ifndef GENS_LOG
 # define BP_GENERATOR_PARSE
+# define BP_GENERATOR_LOAD
 #endif
 #include "assumed_bppp.h"
 
@@ -38,8 +41,10 @@ __CPROVER_ensures(input == g_gp_base + 33 * g_gp_j
 #include "src/secp256k1.c"
 #include "post.h"
 
-#define MAXLEN ((size_t)33 << 20)       /* 2^20 generators */
-#define NMAX   ((size_t)1 << 20)
+#ifndef NMAX
+# define NMAX  ((size_t)1 << 20)          /* 2^20 generators */
+#endif
+#define MAXLEN (33 * NMAX)
 
 void h_gens_parse(void) {
     secp256k1_context ctx;
@@ -99,7 +104,7 @@ void h_gens_serialize(void) {
     verif_ctx_init(&ctx);
     __CPROVER_assume(n <= NMAX && len <= MAXLEN + 64);
     gs.n = n;
-    gs.gens = malloc(n ? n * sizeof(secp256k1_ge) : 1);     /* contents arbitrary */
+    gs.gens = malloc(n * sizeof(secp256k1_ge));             /* contents arbitrary; typed so that the verifier sees an array of group elements */
     data = malloc(len ? len : 1);                           /* exactly *data_len bytes */
     __CPROVER_assume(gs.gens != NULL && data != NULL);
     ret = secp256k1_bppp_generators_serialize(&ctx, use_g ? &gs : NULL, use_data ? data : NULL, use_len ? &len_io : NULL);
